@@ -36,7 +36,9 @@ def tbl_xml(rows, spelling, nhead=0, nested=None):
                 pr.append(X("w:vMerge", {"w:val": "continue"} if spelling.get("explicit_continue") else {}))
             extra = [nested[cid], X("w:p")] if nested and cid in nested else []
             tcs.append(X("w:tc", {}, [X("w:tcPr", {}, pr), X("w:p", {}, [X("w:r", {}, [X("w:t", {}, [XT(str(cid))])])])] + extra))
-        trpr = [X("w:trPr", {}, [X("w:tblHeader")])] if i < nhead else []
+        # other row properties (no header meaning) appear in header and body rows alike
+        noise = [X("w:cantSplit"), X("w:trHeight", {"w:val": "300"}), X("w:jc", {"w:val": "center"})] if spelling.get("trpr_noise") and (i + len(rows)) % 2 == 0 else []
+        trpr = [X("w:trPr", {}, noise[:1] + [X("w:tblHeader")] + noise[1:])] if i < nhead else ([X("w:trPr", {}, noise)] if noise else [])
         trs.append(X("w:tr", {}, trpr + tcs))
     return X("w:tbl", {}, [X("w:tblPr"), X("w:tblGrid")] + trs)
 
@@ -124,7 +126,7 @@ def run(ctx):
     dist = {"exhaustive": n_ex, "random": len(cases) - n_ex, "with_rowspan": 0, "with_colspan": 0, "with_header": 0}
     for k, (kind, R, C, rects) in enumerate(cases):
         rows, grid = G.encode(rects, R, C)
-        spelling = {"explicit_continue": (k % 2 == 0), "always_gridspan": (k % 3 == 0)}
+        spelling = {"explicit_continue": (k % 2 == 0), "always_gridspan": (k % 3 == 0), "trpr_noise": (k % 5 < 2)}
         # header rows: any prefix that no merge crosses
         ok_heads = [h for h in range(0, R + 1) if not any(r < h < r + hh for (r, c, hh, w) in rects)]
         nhead = ctx.rng.choice(ok_heads) if kind == "random" or k % 4 == 0 else 0
